@@ -71,3 +71,12 @@ claim(
     "as C09; wait() raising (not returning) after a NATIVE cancel during its shielded re-acquire is outside the statement and only counted",
     "DESIGN.md 5/C11",
 )
+
+claim(
+    "C20",
+    "runtime monitor on a virtual-time loop in three strata: S1 sequential lock-step differential vs a reference LRU (functools.lru_cache / reference with ttl), S2 strict concurrent history oracle (unique tokens, overlap, staleness, cross-key blocking, retention), S3 same oracle with F3 symptoms classified by mechanism precondition",
+    "Held (apart from the listed known finding F3) on every executed history: seeded sequential sequences over maxsize/typed/ttl "
+    "with virtual clock jumps, seeded concurrent histories with suspensions, failures, scope and native cancellations.",
+    "functools.lru_cache as reference where it applies; retained results counted via the public lru_cache_items RunVar; cache_info() not judged concurrently",
+    "DESIGN.md 5/C20",
+)
